@@ -74,6 +74,9 @@ impl OrderBookSide {
     /// Keys must be unique and increase in queueing order, so if
     /// the level already holds an order queued at (or after) `t`
     /// the time is moved just past the last order in the queue.
+    /// The current time only contributes up to half of the key range,
+    /// the rest is left to tie-breaking, so keys cannot run out
+    /// however late the clock stands.
     ///
     /// # Arguments
     ///
@@ -81,6 +84,7 @@ impl OrderBookSide {
     /// - `t` - Current time
     ///
     fn next_queue_time(&self, key_price: Price, t: Nanos) -> Nanos {
+        let t = t.min(Nanos::MAX >> 1);
         match self
             .orders
             .range((key_price, Nanos::MIN)..=(key_price, Nanos::MAX))
